@@ -626,6 +626,10 @@ func (g *fastGenerator) decodeMessage(varName, buf string, message *protogen.Mes
 
 }
 
+// unmarshalMapField decodes the key or the value of one map entry. A length-delimited key or
+// value ends inside the entry (postIndex), not merely inside the input: one that runs past the
+// entry would be decoded from the bytes that follow it, which are then decoded a second time
+// after the entry (exponential work for nested entries; protobuf-go rejects such input).
 func (g *fastGenerator) unmarshalMapField(varName string, field *protogen.Field) {
 	switch field.Desc.Kind() {
 	case protoreflect.DoubleKind:
@@ -664,7 +668,7 @@ func (g *fastGenerator) unmarshalMapField(varName string, field *protogen.Field)
 		g.P(`if postStringIndex`, varName, ` < 0 {`)
 		g.P(`return `, protoifacePkg.Ident("UnmarshalOutput"), "{NoUnkeyedLiterals: input.NoUnkeyedLiterals, Flags: input.Flags},", runtimePackage.Ident("ErrInvalidLength"))
 		g.P(`}`)
-		g.P(`if postStringIndex`, varName, ` > l {`)
+		g.P(`if postStringIndex`, varName, ` > postIndex {`)
 		g.P(`return `, protoifacePkg.Ident("UnmarshalOutput"), "{NoUnkeyedLiterals: input.NoUnkeyedLiterals, Flags: input.Flags},", g.Ident("io", `ErrUnexpectedEOF`))
 		g.P(`}`)
 		g.P(varName, ` = `, "string", `(dAtA[iNdEx:postStringIndex`, varName, `])`)
@@ -679,7 +683,7 @@ func (g *fastGenerator) unmarshalMapField(varName string, field *protogen.Field)
 		g.P(`if postmsgIndex < 0 {`)
 		g.P(`return `, protoifacePkg.Ident("UnmarshalOutput"), "{NoUnkeyedLiterals: input.NoUnkeyedLiterals, Flags: input.Flags},", runtimePackage.Ident("ErrInvalidLength"))
 		g.P(`}`)
-		g.P(`if postmsgIndex > l {`)
+		g.P(`if postmsgIndex > postIndex {`)
 		g.P(`return `, protoifacePkg.Ident("UnmarshalOutput"), "{NoUnkeyedLiterals: input.NoUnkeyedLiterals, Flags: input.Flags},", g.Ident("io", `ErrUnexpectedEOF`))
 		g.P(`}`)
 		buf := `dAtA[iNdEx:postmsgIndex]`
@@ -697,7 +701,7 @@ func (g *fastGenerator) unmarshalMapField(varName string, field *protogen.Field)
 		g.P(`if postbytesIndex < 0 {`)
 		g.P(`return `, protoifacePkg.Ident("UnmarshalOutput"), "{NoUnkeyedLiterals: input.NoUnkeyedLiterals, Flags: input.Flags},", runtimePackage.Ident("ErrInvalidLength"))
 		g.P(`}`)
-		g.P(`if postbytesIndex > l {`)
+		g.P(`if postbytesIndex > postIndex {`)
 		g.P(`return `, protoifacePkg.Ident("UnmarshalOutput"), "{NoUnkeyedLiterals: input.NoUnkeyedLiterals, Flags: input.Flags},", g.Ident("io", `ErrUnexpectedEOF`))
 		g.P(`}`)
 		g.P(varName, ` = make([]byte, mapbyteLen)`)
